@@ -111,7 +111,8 @@ Proof.
   { rewrite He. apply chain_end_mono. intros x Hx.
     destruct (split_rest_dom_start P pre rest d0 HP Hw x Hx) as (_ & A & _). exact A. }
   assert (Hcr : contains_range eff (TR ds ds) = true).
-  { unfold contains_range. simpl. unfold dom_s, dom_e in *. apply andb_true_iff. split; apply Z.leb_le; lia. }
+  { unfold contains_range. simpl. unfold di_tr in Hs. simpl in Hs. unfold dom_s, dom_e in *.
+    apply andb_true_iff. split; apply Z.leb_le; lia. }
   rewrite Hcr. simpl. unfold tspan. simpl. rewrite Z.sub_diag. simpl. eauto.
 Qed.
 
@@ -131,7 +132,7 @@ Proof.
     apply andb_true_iff in E as [Eo Ec]. rewrite Ec. apply Z.eqb_eq in Ec.
     assert (Eo' : overlaps (d_tr d) (TR s x) = true).
     { unfold dom_s, dom_e in *. rewrite overlaps_nonempty by (simpl; lia). simpl. apply Z.ltb_lt. lia. }
-    rewrite Eo'. simpl. apply IH; auto; try lia. intros y Hy. apply Hne. right. exact Hy.
+    rewrite Eo'. simpl. apply IH; auto; try lia.
 Qed.
 
 Lemma covered_prefix P s e x : widx P -> covered P s e -> s < x <= e -> covered P s x.
@@ -197,7 +198,7 @@ Proof.
   assert (Hk2r : pick_sample_offset sa <= pick_sample_offset ea <= zlen (ptr_samples c p)).
   { rewrite Hk1, Hk2, Hal'. pose proof (cnt_lt_mono G (Z.max ts s0) (Z.min te re) ltac:(lia)).
     pose proof (cnt_lt_mono G (Z.min te re) te ltac:(lia)). lia. }
-  rewrite (byte_offset_spec c p _ Hd (Hpa p Hp) ltac:(lia)). simpl.
+  rewrite (byte_offset_spec c p (pick_sample_offset ea) Hd (Hpa p Hp) ltac:(lia)). simpl.
   pose proof (ptr_samples_pos c p Hfp (Hpa p Hp)) as Hpos.
   destruct (bytes_firstn_mono (ptr_samples c p) (Z.to_nat (pick_sample_offset sa)) (Z.to_nat (pick_sample_offset ea))
               Hpos ltac:(unfold zlen in *; lia)) as [Hmono _].
@@ -257,7 +258,7 @@ Proof.
     rewrite (span_range_max_end s0 Hs00). rewrite bound_by_inter by (simpl; lia). simpl.
     replace (Z.max s0 rs) with s0 by lia. replace (Z.min MAXTS re) with re by lia.
     destruct (_ || _); [eauto|].
-    rewrite <- Hl, skipn_zlen_app.
+    rewrite E, <- Hl, skipn_zlen_app.
     apply (read_loop_succeeds rs re s0 ltac:(unfold s0; lia) (p0 :: R) true).
     + rewrite E in Hsorted. apply sorted_ptrs_app_inv in Hsorted as [_ Hs2]. exact Hs2.
     + intros q Hq. rewrite E. apply in_or_app. right. exact Hq.
@@ -265,3 +266,50 @@ Proof.
     + intros _. rewrite overlaps_ne by lia. apply Z.ltb_lt. unfold s0 in *. lia.
 Qed.
 End Success.
+
+(* ------------------------------------------------------------------ coverage of sub-ranges *)
+Lemma chain_end_bounds s x e : forall rest e0,
+  s <= x < e -> (forall d, In d rest -> x <= dom_s d /\ dom_s d < dom_e d) ->
+  chain_end (TR s e) e0 rest = chain_end (TR x e) e0 rest.
+Proof.
+  induction rest as [|d r IH]; intros e0 Hx Hd; simpl; [reflexivity|].
+  destruct (Hd d (or_introl eq_refl)) as [H1 H2]. unfold dom_s, dom_e in *.
+  rewrite !overlaps_nonempty by (simpl; lia). simpl.
+  replace (Z.max (t_s (d_tr d)) s) with (t_s (d_tr d)) by lia.
+  replace (Z.max (t_s (d_tr d)) x) with (t_s (d_tr d)) by lia.
+  rewrite IH by (auto; intros y Hy; apply Hd; right; exact Hy). reflexivity.
+Qed.
+
+Lemma covered_suffix_aux s x e : s <= x < e -> forall rest pre d0,
+  widx (pre ++ d0 :: rest) -> dom_s d0 <= x -> e <= chain_end (TR s e) (dom_e d0) rest ->
+  covered (pre ++ d0 :: rest) x e.
+Proof.
+  intros Hx. induction rest as [|d1 r IH]; intros pre d0 Hw H0 Hce.
+  - simpl in Hce. exists pre, d0, []. split; [reflexivity|]. split; [lia|]. simpl. lia.
+  - destruct (split_d0 _ pre (d1 :: r) d0 eq_refl Hw) as [_ Hne].
+    assert (Hrest : forall d, In d (d1 :: r) -> dom_e d0 <= dom_s d /\ dom_s d < dom_e d).
+    { intros d Hd. destruct (split_rest_dom_start _ pre (d1 :: r) d0 eq_refl Hw d Hd) as (A & B & _). auto. }
+    destruct (Z_lt_le_dec x (dom_e d0)) as [Hlt|Hge].
+    + exists pre, d0, (d1 :: r). split; [reflexivity|]. split; [lia|].
+      rewrite <- (chain_end_bounds s x e (d1 :: r) (dom_e d0) Hx); [exact Hce|].
+      intros d Hd. destruct (Hrest d Hd). lia.
+    + simpl in Hce.
+      destruct (overlaps (d_tr d1) (TR s e) && (dom_e d0 =? dom_s d1)) eqn:E; [|lia].
+      apply andb_true_iff in E as [_ Ec]. apply Z.eqb_eq in Ec.
+      rewrite (app_cons_assoc pre d0 (d1 :: r)). apply IH.
+      * rewrite <- app_cons_assoc. exact Hw.
+      * lia.
+      * exact Hce.
+Qed.
+
+Lemma covered_suffix P s e x : widx P -> covered P s e -> s <= x < e -> covered P x e.
+Proof.
+  intros Hw (pre & d0 & rest & HP & Hin & Hce) Hx. subst P.
+  apply (covered_suffix_aux s x e Hx rest pre d0 Hw); [lia|exact Hce].
+Qed.
+
+Lemma covered_sub P s e x y : widx P -> covered P s e -> s <= x -> x < y -> y <= e -> covered P x y.
+Proof.
+  intros Hw Hc H1 H2 H3. apply (covered_prefix P x e y Hw); [|lia].
+  apply (covered_suffix P s e x Hw Hc). lia.
+Qed.
